@@ -409,6 +409,9 @@ func (st *c18State) doStep() {
 			if rng.Chance(1, 4) {
 				// several hundred terms: where chunked / bucketed implementations split again
 				l = gen.Pick(rng, 256, 257, 258, 300, 511, 512, 513, 700, 1025)
+				if rng.Chance(1, 6) {
+					l = gen.Pick(rng, 2049, 4097, 4100, 8193) // and beyond the next powers of two
+				}
 				w.Class("c18:alias:long-list>=256")
 			}
 			w.Class("c18:alias:long-list")
@@ -428,7 +431,7 @@ func (st *c18State) doStep() {
 					idxP[k] = a // the receiver appears exactly where it is put below
 				}
 			}
-			at := gen.Pick(rng, l-1, 64, 65, l/2, 32+rng.Intn(l-32), 256, 257, 512, l-2)
+			at := gen.Pick(rng, l-1, 64, 65, l/2, 32+rng.Intn(l-32), 256, 257, 512, l-2, 1024, 2048, 4096, l-1, l-2)
 			if at >= l {
 				at = l - 1
 			}
